@@ -9,7 +9,12 @@ Every float matrix handed to toqito has an exact dyadic image X (cert.DM.exact_f
     (sepMix_separable: it IS a mixture of product states), compared entrywise with the float matrix,
   * for the exact local conjugation / exchange of parties of X (sep_local_unitary_closed, sep_swap_closed), compared with the
     float matrices that are fed to toqito (exchange: toqito.perms.swap, exact equality),
-  * for the exact Gurvits-Barnum decision (ball_exact, inSepBallMirror_eq).
+  * for the exact Gurvits-Barnum decision (ball_exact, inSepBallMirror_eq),
+  * for the exact realignment R(X), the exact marginals tr_B X, tr_A X and the exact partial application of a map given by its Choi matrix
+    (realign_exec_eq_spec, ptrace_exec_eq_spec, partial_channel_exec_eq_spec), compared with toqito's realignment / partial_trace / partial_channel; on these
+    the quantities of the NECESSARY criteria of the cascade are evaluated for every separable-by-construction instance, confirming numerically what
+    the Lean theorems state for all dimensions (realignment_criterion_svd, zhang_criterion_svd, positive_map_criterion, reduction_criterion,
+    breuer_hall_criterion): a separable input decided at one of those branches contradicts a theorem, i.e. the CODE evaluates the criterion wrongly.
 The deciding return statement of is_separable / has_symmetric_extension is observed with sys.monitoring (no source hooks)."""
 from __future__ import annotations
 
@@ -53,6 +58,12 @@ ASSUMPTIONS = [
     "condition; margins 1e-9 / 1e-13 / 1e-9) holds, or for invariance pairs in which one member is accepted by one of toqito's sound sufficient criteria and the other is decided by that late stage; "
     "a deciding statement governed by a condition that no labelling rule recognises is reported as 'unrecognised:...' and never folded into a named branch",
     "soundness of the sufficient criteria named above (Gurvits-Barnum, Cariello, Johnston, Vidal-Tarrach, Horodecki for dA*dB <= 6) is cited, not proved in Lean",
+    "necessary criteria (the branches that answer False): PPT, realignment, Zhang et al., the positive-map criterion with the reduction and Breuer-Hall maps are Lean theorems for all "
+    "local dimensions (peres, realignment_criterion[_svd], zhang_criterion[_svd], positive_map_criterion, reduction_criterion, breuer_hall_criterion); the trace norm is used in its dual form "
+    "(sup over contractions) and as the sum of the singular values of ANY singular value decomposition; two facts stay cited: positivity of the Ha-Kye qutrit maps Phi[a,b,c] "
+    "(Cho-Kye-Lee; a hypothesis of ha_maps_branch, probed numerically on random pure states in every run) and the Chen-Djokovic determinant criterion for rank-4 states on 3x3",
+    "criteria quantities are evaluated in float on rho/trace(rho) (the normalisation is_separable performs) from the exact Lean realignment / marginals; an inequality proved in Lean must hold "
+    "with slack 1e-12 (else the harness itself is wrong: infrastructure error), and toqito's own evaluation of the same quantity must agree within 1e-12 (else violation)",
 ]
 MARGIN = 1e-9
 SQRT_EPS = float(np.sqrt(np.finfo(float).eps))
@@ -634,6 +645,30 @@ def _sep_violation(res, what, inst, form, out, branch, exc, extra=None):
     res.violation(what, info)
 
 
+def _contradicts(out, branch):
+    if out is False and branch in NECESSARY_THEOREMS:
+        return f": contradicts the Lean theorem {NECESSARY_THEOREMS[branch]} (no separable state fails this necessary criterion), so the code evaluates the criterion wrongly"
+    return ""
+
+
+def _sep_theorem(base, out, branch):
+    return base + (" + " + NECESSARY_THEOREMS[branch] if out is False and branch in NECESSARY_THEOREMS else "")
+
+
+def _ppt_first(res, inst, form, out, branch, exc, npt8, ppt8, cinfo):
+    """the PPT test (tolerance 1e-8 on rho/trace) is the FIRST test of the cascade: a certified failure of it must be answered False at the PPT statement,
+    and the PPT statement must not answer when the test certifiably passes (branch-trace assertion about the code, oracle: pptVerdict_sound)"""
+    if not (npt8 or ppt8) or branch in ("input-not-psd", "invalid-dim", "dim1", "not-entered"):
+        return
+    res.count("ppt-first/" + ("npt" if npt8 else "ppt"))
+    if npt8 and not (out is False and branch == "ppt-reject"):
+        _sep_violation(res, f"the PPT test fails by a margin (certified lambda_min(PT) <= {cinfo['certified']['hi']:.3g}) but is_separable answered {out} at branch {branch}, not False at the PPT statement",
+                       inst, form, out, branch, exc, {**cinfo, "model": [False, "ppt-reject"], "theorem": "pptVerdict_sound (PPT is the first test) / negative_rayleigh_not_separable"})
+    elif ppt8 and branch == "ppt-reject":
+        _sep_violation(res, f"is_separable answered at the PPT-reject statement although the PPT test passes by a margin (certified lambda_min(PT) >= {cinfo['certified']['lo']:.3g})",
+                       inst, form, out, branch, exc, {**cinfo, "model": "not ppt-reject", "theorem": "pptVerdict_sound / peres"})
+
+
 def work_sep(task, res: Result):
     """is_separable: soundness on separable-by-construction inputs, on certified-NPT inputs, agreement with PPT for D <= 6,
     invariance under local unitaries and exchange of the parties"""
@@ -653,6 +688,10 @@ def work_sep(task, res: Result):
     lo, hi = cert["lo"], cert["hi"]
     tr = float(np.trace(rho).real)
     npt = hi is not None and float(hi) <= -1e-6 * tr
+    # is_separable tests rho / trace(rho) against tol = 1e-8 first: certified verdict of that first test (scale-free), decided only by the margin
+    npt8 = hi is not None and float(hi) <= (-1e-8 - MARGIN) * tr
+    ppt8 = lo is not None and float(lo) >= (-1e-8 + MARGIN) * tr
+    cinfo = {"certified": {"lo": None if lo is None else float(lo), "hi": None if hi is None else float(hi)}}
     verdicts = {}
     for form in forms:
         arr, guard = _give(task, rho, "sep", form)
@@ -669,10 +708,10 @@ def work_sep(task, res: Result):
         desc = {"fn": "is_separable", "dim_form": form, "dA": dA, "dB": dB, "family": fam, "k": inst.get("k"), "rho": digest(rho)}
         oracle = bool(inst.get("sep")) or npt or D <= 6
         res.case(desc, oracle, f"is_separable/{fam}/{dA}x{dB}")
-        cinfo = {"certified": {"lo": None if lo is None else float(lo), "hi": None if hi is None else float(hi)}}
+        _ppt_first(res, inst, form, out, branch, exc, npt8, ppt8, cinfo)
         if inst.get("sep") and out is not True:
-            _sep_violation(res, f"is_separable declared a mixture of {inst.get('k')} product states on {dA}x{dB} " + ("entangled" if out is False else f"invalid ({exc})") + f" at branch {branch}",
-                           inst, form, out, branch, exc, {**cinfo, "model": True, "theorem": "sepMix_separable"})
+            _sep_violation(res, f"is_separable declared a mixture of {inst.get('k')} product states on {dA}x{dB} " + ("entangled" if out is False else f"invalid ({exc})") + f" at branch {branch}"
+                           + _contradicts(out, branch), inst, form, out, branch, exc, {**cinfo, "model": True, "theorem": _sep_theorem("sepMix_separable", out, branch)})
         elif npt and out is not False:
             _sep_violation(res, f"is_separable = {out} although certified lambda_min(PT) <= {float(hi):.3g} (branch {branch})", inst, form, out, branch, exc,
                            {**cinfo, "model": False, "theorem": "negative_rayleigh_not_separable"})
@@ -722,15 +761,256 @@ def work_sep(task, res: Result):
             res.count(f"is_separable-branch/{branch2}/{out2}")
             both_raise = isinstance(out2, str) and isinstance(base_out, str)
             res.case({"fn": "is_separable/" + vname, "dA": dA, "dB": dB, "family": fam, "rho": digest(rho)}, not both_raise, f"invariance/{vname}/" + ("both-raise" if both_raise else "compared"))
+            _ppt_first(res, inst2, "list", out2, branch2, exc2, npt8, ppt8, cinfo)
             if inst.get("sep") and out2 is not True:
-                _sep_violation(res, f"is_separable declared the {vname} image of a mixture of product states " + ("entangled" if out2 is False else f"invalid ({exc2})") + f" at branch {branch2}",
-                               inst2, "list", out2, branch2, exc2, {"model": True, "theorem": "sep_local_unitary_closed / sep_swap_closed"})
+                _sep_violation(res, f"is_separable declared the {vname} image of a mixture of product states " + ("entangled" if out2 is False else f"invalid ({exc2})") + f" at branch {branch2}"
+                               + _contradicts(out2, branch2), inst2, "list", out2, branch2, exc2, {"model": True, "theorem": _sep_theorem("sep_local_unitary_closed / sep_swap_closed", out2, branch2)})
             elif npt and out2 is not False:
                 _sep_violation(res, f"is_separable = {out2} on the {vname} image of a certified NPT state", inst2, "list", out2, branch2, exc2, {"model": False, "theorem": "negative_rayleigh_not_separable"})
             elif out2 != base_out and not inst.get("sep"):
                 _sep_violation(res, f"is_separable verdict not invariant under {vname}: {base_out} ({base_branch}) vs {out2} ({branch2})", inst2, "list", [base_out, out2], branch2, exc2,
                                {"model": "equal", "kind": "invariance", "pair": [[base_out, base_branch], [out2, branch2]], "base_branch": base_branch, "base_rho": rho, "base_dims": [dA, dB],
                                 "theorem": "sep_local_unitary_iff / sep_swap_closed"})
+
+
+# ------------------------------------------------------------------------------------------------
+# necessary criteria of the cascade (branches that answer False): which Lean theorem covers which branch
+
+NECESSARY_THEOREMS = {
+    "ppt-reject": "peres",
+    "realignment": "realignment_criterion_svd (+ realign_exec_eq_spec)",
+    "zhang": "zhang_criterion_svd (+ ptrace_exec_eq_spec)",
+    "ha-maps-3x3": "positive_map_criterion / ha_maps_branch (+ partial_channel_exec_eq_spec; positivity of the Ha-Kye maps is cited)",
+    "breuer-hall": "breuer_hall_criterion",
+}
+CRIT_SLACK = 1e-12
+
+
+def realign_np(M, dA, dB):
+    return np.asarray(M).reshape(dA, dB, dA, dB).transpose(0, 2, 1, 3).reshape(dA * dA, dB * dB)
+
+
+def nuc(M):
+    return float(np.sum(np.linalg.svd(np.asarray(M, dtype=complex), compute_uv=False)))
+
+
+def choi_apply_np(X, J, dA, dB, dO, sys_):
+    Xr = np.asarray(X, dtype=complex).reshape(dA, dB, dA, dB)
+    if sys_ == 2:
+        return np.einsum("akcl,kolp->aocp", Xr, np.asarray(J, dtype=complex).reshape(dB, dO, dB, dO)).reshape(dA * dO, dA * dO)
+    return np.einsum("kbld,kolp->obpd", Xr, np.asarray(J, dtype=complex).reshape(dA, dO, dA, dO)).reshape(dO * dB, dO * dB)
+
+
+def ha_choi_matrices():
+    """the Choi matrices is_separable builds for 3x3 (same loop, same float arithmetic) with their parameters (a, b, c)"""
+    phi = np.zeros((9, 1))
+    for i in range(3):
+        phi[3 * i + i, 0] = 1
+    out = []
+    for t in np.arange(0, 1.0, 0.1):
+        t_ = t
+        for j in range(2):
+            if t_ > 0:
+                t_ = 1 / t_
+            elif j > 0:
+                break
+            a = (1 - t_) ** 2 / (1 - t_ + t_**2)
+            b = t_**2 / (1 - t_ + t_**2)
+            c = 1 / (1 - t_ + t_**2)
+            out.append(((a, b, c), np.diag([a + 1, c, b, b, a + 1, c, c, b, a + 1]) - phi @ phi.conj().T))
+    return out
+
+
+def breuer_hall_choi(d):
+    """Choi matrix sum_ij E_ij (x) L(E_ij) of L(X) = tr(X) 1 - X - U X^T U^H, U = antidiag(1,..,1,-1,..,-1) (antisymmetric unitary, d even)"""
+    U = np.fliplr(np.diag([1.0] * (d // 2) + [-1.0] * (d // 2)))
+    if not (np.array_equal(U.T, -U) and np.array_equal(U.T @ U, np.eye(d))):
+        raise InfraError("Breuer-Hall U is not an antisymmetric unitary")
+    J = np.zeros((d * d, d * d))
+    for i in range(d):
+        for j in range(d):
+            E = np.zeros((d, d))
+            E[i, j] = 1
+            L = np.trace(E) * np.eye(d) - E - U @ E.T @ U.T
+            J += np.kron(E, L)
+    return J
+
+
+def _lean_mat(ans, r, c):
+    re = np.array([int(x[0]) / int(x[1]) for x in ans["re"]]).reshape(r, c)
+    im = np.array([int(x[0]) / int(x[1]) for x in ans["im"]]).reshape(r, c)
+    return re + 1j * im
+
+
+def _exact_equal(impl, ans):
+    iv = np.asarray(impl, dtype=complex).reshape(-1)
+    return len(iv) == len(ans["re"]) and all(Fraction(float(z.real)) == Fraction(int(r[0]), int(r[1])) and Fraction(float(z.imag)) == Fraction(int(i[0]), int(i[1]))
+                                             for z, r, i in zip(iv, ans["re"], ans["im"]))
+
+
+def work_criteria(task, res: Result):
+    """ties toqito's realignment / partial_trace / partial_channel to the exact Lean evaluators and evaluates the quantities of the necessary criteria
+    (realignment, Zhang et al., reduction, Ha-Kye maps on 3x3, Breuer-Hall in even dimension) on separable-by-construction inputs"""
+    from toqito.channel_ops.partial_channel import partial_channel
+    from toqito.channels import partial_trace, realignment
+    from toqito.matrix_props import is_positive_semidefinite, trace_norm
+    warnings.filterwarnings("ignore")
+    inst = task["inst"]
+    drv = _drv(task)
+    dA, dB, rho = inst["dA"], inst["dB"], inst["rho"]
+    D = dA * dB
+    X = _X(inst)
+    sep = bool(inst.get("sep"))
+    if sep:
+        check_sepmix_exact(drv, inst, res)
+    scale = max(1.0, float(np.max(np.abs(rho))))
+    args = {"dA": dA, "dB": dB, "family": inst["family"], "k": inst.get("k"), "meta": inst.get("meta"), "rho": rho, "pres": task.get("pres"), "ha_idx": task.get("ha_idx", 0)}
+    base = {"function": "necessary_criteria", "args": args, "separable_by_construction": sep, "dA": dA, "dB": dB}
+    # ---- ties (any input)
+    arr, guard = _give(task, rho, "crit-realign")
+    R_impl = np.asarray(realignment(arr, [dA, dB]))
+    _purity(res, "realignment", guard, arr, args)
+    if drv is not None:
+        ans = drv.ask("c15_realign", {"dA": dA, "dB": dB, "X": X.json()})
+        if "reject" in ans:
+            raise InfraError(f"c15_realign rejected: {ans}")
+        R_model = _lean_mat(ans, dA * dA, dB * dB)
+        ok = R_impl.shape == (dA * dA, dB * dB) and _exact_equal(R_impl, ans)
+        pa = drv.ask("c15_ptrace", {"dA": dA, "dB": dB, "X": X.json()})
+        A_model, B_model = _lean_mat(pa["A"], dA, dA), _lean_mat(pa["B"], dB, dB)
+    else:
+        R_model = realign_np(X.to_float(), dA, dB)
+        ok = R_impl.shape == R_model.shape and np.array_equal(np.asarray(R_impl, dtype=complex), R_model)
+        A_model = np.einsum("abcb->ac", X.to_float().reshape(dA, dB, dA, dB))
+        B_model = np.einsum("abad->bd", X.to_float().reshape(dA, dB, dA, dB))
+    if not np.array_equal(R_model, realign_np(X.to_float(), dA, dB)):
+        raise InfraError("Lean realignE differs from the harness replica")
+    res.case({"fn": "realignment_tie", "dA": dA, "dB": dB, "rho": digest(rho)}, dA != dB or inst["cplx"], f"criteria/realign-tie/{dA}x{dB}")
+    if not ok:
+        res.violation(f"realignment(rho, [{dA},{dB}]) differs from the exact model", {**base, "function": "realignment", "impl": R_impl, "model": "realignE", "theorem": "realign_exec_eq_spec"})
+    for sys_, M_model, nm in ((1, A_model, "A"), (0, B_model, "B")):
+        arr, guard = _give(task, rho, "crit-ptrace", sys_)
+        M_impl = np.asarray(partial_trace(arr, [sys_], [dA, dB]))
+        _purity(res, "partial_trace", guard, arr, args)
+        if M_impl.shape != M_model.shape or float(np.max(np.abs(M_impl - M_model))) > 1e-15 * max(dA, dB) * scale:
+            res.violation(f"partial_trace(rho, [{sys_}], [{dA},{dB}]) differs from the exact marginal rho_{nm}", {**base, "function": "partial_trace", "sys": sys_, "impl": M_impl, "model": M_model, "theorem": "ptrace_exec_eq_spec"})
+    res.count("criteria/ties-checked")
+    if not sep:
+        return
+    # ---- the normalisation is_separable performs
+    tr = complex(np.trace(rho))
+    rn = np.asarray(rho, dtype=complex) / tr
+    trX = float(X.trace_re())
+    Rn, An, Bn = R_model / trX, A_model / trX, B_model / trX
+    dim = [dA, dB]
+    viol = lambda what, thm, extra: res.violation(what, {**base, "theorem": thm, **extra})
+    nontrivial = inst.get("k", 1) >= 2
+    # (1) realignment
+    q_model = nuc(Rn)
+    q_impl = float(trace_norm(realignment(rn, dim)))
+    if q_model > 1 + CRIT_SLACK:
+        raise InfraError(f"||R(rho)||_1 = {q_model} > 1 on a separable-by-construction input: contradicts realignment_criterion_svd (harness or model wrong)")
+    res.case({"fn": "crit/realignment", "dA": dA, "dB": dB, "rho": digest(rho)}, nontrivial, f"criteria/realignment/{dA}x{dB}/" + ("tight" if q_model > 1 - 1e-9 else "slack"))
+    if abs(q_impl - q_model) > CRIT_SLACK or q_impl > 1 + 1e-8:
+        viol(f"trace_norm(realignment(rho)) = {q_impl!r} but the exact realignment has trace norm {q_model!r} <= 1 on {dA}x{dB}", NECESSARY_THEOREMS["realignment"], {"impl": q_impl, "model": q_model})
+    # (2) Zhang et al.
+    lhs_model = nuc(realign_np(X.to_float() / trX - np.kron(An, Bn), dA, dB))
+    rhs_model = float(np.sqrt(max(0.0, 1 - np.trace(An @ An).real) * max(0.0, 1 - np.trace(Bn @ Bn).real)))
+    pa_, pb_ = partial_trace(rn, [1], dim), partial_trace(rn, [0], dim)
+    lhs_impl = float(trace_norm(realignment(rn - np.kron(pa_, pb_), dim)))
+    rhs_impl = float(np.sqrt(max(0.0, 1 - np.real(np.trace(pa_ @ pa_))) * max(0.0, 1 - np.real(np.trace(pb_ @ pb_)))))
+    if lhs_model > rhs_model + CRIT_SLACK or 1 - np.trace(An @ An).real < -CRIT_SLACK or 1 - np.trace(Bn @ Bn).real < -CRIT_SLACK:
+        raise InfraError(f"Zhang bound {lhs_model} <= {rhs_model} fails on a separable-by-construction input: contradicts zhang_criterion_svd (harness or model wrong)")
+    res.case({"fn": "crit/zhang", "dA": dA, "dB": dB, "rho": digest(rho)}, nontrivial, f"criteria/zhang/{dA}x{dB}/" + ("tight" if lhs_model > rhs_model - 1e-9 else "slack"))
+    if abs(lhs_impl - lhs_model) > CRIT_SLACK or abs(rhs_impl - rhs_model) > 1e-9 or lhs_impl > 1e-8 + rhs_impl:
+        viol(f"Zhang test: toqito evaluates {lhs_impl!r} vs bound {rhs_impl!r}; exact quantities {lhs_model!r} <= {rhs_model!r} on {dA}x{dB}", NECESSARY_THEOREMS["zhang"],
+             {"impl": [lhs_impl, rhs_impl], "model": [lhs_model, rhs_model]})
+    # (3) reduction criterion (not a branch of the cascade; the Breuer-Hall map refines it)
+    Xn = X.to_float() / trX
+    for nm, M in (("rho_A (x) 1 - rho", np.kron(An, np.eye(dB)) - Xn), ("1 (x) rho_B - rho", np.kron(np.eye(dA), Bn) - Xn)):
+        if float(np.linalg.eigvalsh(herm(M))[0]) < -CRIT_SLACK:
+            raise InfraError(f"{nm} is not PSD on a separable-by-construction input: contradicts reduction_criterion")
+    res.count("criteria/reduction-confirmed")
+    # (4) Ha-Kye maps (the 3x3 branch)
+    if (dA, dB) == (3, 3):
+        for idx, ((a, b, c), Phi) in enumerate(ha_choi_matrices()):
+            Y_model = choi_apply_np(Xn, Phi, 3, 3, 3, 2)
+            lam = float(np.linalg.eigvalsh(herm(Y_model))[0])
+            if lam < -CRIT_SLACK:
+                raise InfraError(f"(id (x) Phi[{a},{b},{c}])(rho) has eigenvalue {lam} on a separable-by-construction input: contradicts positive_map_criterion / the cited positivity of Phi[a,b,c]")
+            Y_impl = np.asarray(partial_channel(rn, Phi, 2, dim))
+            good = Y_impl.shape == Y_model.shape and float(np.max(np.abs(Y_impl - Y_model))) <= 1e-13 * 4 and bool(is_positive_semidefinite(Y_impl))
+            if idx == task.get("ha_idx", 0) % 19 and drv is not None:
+                ans = drv.ask("c15_choi_apply", {"dA": 3, "dB": 3, "dO": 3, "sys": 2, "J": DM.exact_float(np.asarray(Phi, dtype=complex)).json(), "X": X.json()})
+                if float(np.max(np.abs(_lean_mat(ans, 9, 9) / trX - Y_model))) > 1e-13 * 4:
+                    raise InfraError("Lean choiApplyB differs from the harness replica")
+                res.count("criteria/choi-apply-exact-checked")
+            if not good:
+                viol(f"partial_channel(rho, Phi[{a:.4g},{b:.4g},{c:.4g}], 2, [3,3]) is not the PSD operator (id (x) Phi)(rho) (min eigenvalue {lam:.3g})", NECESSARY_THEOREMS["ha-maps-3x3"],
+                     {"impl": Y_impl, "model": Y_model, "abc": [a, b, c]})
+        res.case({"fn": "crit/ha-maps", "rho": digest(rho)}, nontrivial, "criteria/ha-maps/3x3")
+    # (5) Breuer-Hall maps (even local dimension); the code's own block raises TypeError (known finding), so only the theorem's map is evaluated
+    for p_, d in ((1, dA), (2, dB)):
+        if d % 2 == 0:
+            Y = choi_apply_np(Xn, breuer_hall_choi(d), dA, dB, d, p_)
+            lam = float(np.linalg.eigvalsh(herm(Y))[0])
+            if lam < -CRIT_SLACK:
+                raise InfraError(f"Breuer-Hall map on party {p_} gives eigenvalue {lam} on a separable-by-construction input: contradicts breuer_hall_criterion")
+            res.case({"fn": "crit/breuer-hall", "party": p_, "dA": dA, "dB": dB, "rho": digest(rho)}, nontrivial, f"criteria/breuer-hall/{dA}x{dB}/party{p_}")
+
+
+def work_choi_tie(task, res: Result):
+    """partial_channel with a Choi matrix on Gaussian-integer data (bilinear: float arithmetic exact) = Lean choiApplyA / choiApplyB, exact equality"""
+    from toqito.channel_ops.partial_channel import partial_channel
+    warnings.filterwarnings("ignore")
+    drv = _drv(task)
+    dA, dB, dO, sys_, Xi, Ji = task["dA"], task["dB"], task["dO"], task["sys"], task["X"], task["J"]
+    arr, guard = _give(task, Xi, "choi-tie")
+    args = {"dA": dA, "dB": dB, "dO": dO, "sys": sys_, "X": Xi, "J": Ji, "pres": task.get("pres")}
+    try:
+        Y = np.asarray(partial_channel(arr, np.array(Ji, copy=True), sys_, [dA, dB]))
+        exc = None
+    except Exception as e:
+        Y, exc = None, f"{type(e).__name__}: {str(e)[:160]}"
+    _purity(res, "partial_channel", guard, arr, args)
+    Y_np = choi_apply_np(Xi, Ji, dA, dB, dO, sys_)
+    if drv is not None:
+        ans = drv.ask("c15_choi_apply", {"dA": dA, "dB": dB, "dO": dO, "sys": sys_, "J": DM.from_int(np.asarray(Ji)).json(), "X": DM.from_int(np.asarray(Xi)).json()})
+        if "reject" in ans:
+            raise InfraError(f"c15_choi_apply rejected: {ans}")
+        n = (dA * dO) if sys_ == 2 else (dO * dB)
+        if not np.array_equal(_lean_mat(ans, n, n), Y_np):
+            raise InfraError("Lean choiApply differs from the harness replica on integer data")
+        ok = Y is not None and Y.shape == (n, n) and _exact_equal(Y, ans)
+    else:
+        ok = Y is not None and Y.shape == Y_np.shape and np.array_equal(np.asarray(Y, dtype=complex), Y_np)
+    d_in = dA if sys_ == 1 else dB
+    res.case({"fn": "partial_channel_tie", "dA": dA, "dB": dB, "dO": dO, "sys": sys_, "X": digest(Xi), "J": digest(Ji)}, dA != dB or dO != d_in, f"criteria/choi-tie/sys{sys_}/" + ("dO=d" if dO == d_in else "dO!=d"))
+    if not ok:
+        res.violation(f"partial_channel(X, J, {sys_}, [{dA},{dB}]) with a {d_in}->{dO} Choi matrix differs from the exact model ({exc})",
+                      {"function": "partial_channel", "args": args, "impl": Y, "model": Y_np, "exception": exc, "theorem": "partial_channel_exec_eq_spec"})
+
+
+def work_ha_probe(task, res: Result):
+    """the cited hypothesis of ha_maps_branch, probed: the Choi matrices built by is_separable are those of Phi[a,b,c] (choiMap_haChoi) with a+b+c = 2,
+    bc = (1-a)^2, 0 <= a <= 1, and Phi[a,b,c](b b^H) is PSD on the given pure states"""
+    vecs = task["vecs"]
+    mats = ha_choi_matrices()
+    if len(mats) != 19:
+        raise InfraError("expected 19 Ha-Kye Choi matrices")
+    for (a, b, c), Phi in mats:
+        if abs(a + b + c - 2) > 1e-12 or abs(b * c - (1 - a) ** 2) > 1e-12 or not (-1e-15 <= a <= 1 + 1e-15):
+            res.violation(f"is_separable's qutrit map parameters ({a}, {b}, {c}) leave the Cho-Kye-Lee positivity region", {"function": "ha_probe", "args": {"abc": [a, b, c], "vecs": vecs}, "impl": [a, b, c], "model": "a+b+c>=2, bc>=(1-a)^2", "theorem": "ha_maps_branch (cited hypothesis)"})
+        for v in vecs:
+            P = np.outer(v, np.conj(v))
+            L = np.einsum("kl,kolp->op", P, Phi.reshape(3, 3, 3, 3))
+            formula = np.diag([a * P[k, k] + b * P[(k + 1) % 3, (k + 1) % 3] + c * P[(k + 2) % 3, (k + 2) % 3] for k in range(3)]) - (P - np.diag(np.diag(P)))
+            if float(np.max(np.abs(L - formula))) > 1e-12 * max(1.0, float(np.max(np.abs(P)))):
+                raise InfraError("Choi matrix of the cascade is not that of Phi[a,b,c] (contradicts choiMap_haChoi)")
+            lam = float(np.linalg.eigvalsh(herm(L))[0])
+            res.case({"fn": "ha-probe", "abc": [round(a, 6), round(b, 6), round(c, 6)], "v": digest(v)}, True, "criteria/ha-positivity-probe")
+            if lam < -1e-12 * max(1.0, float(np.vdot(v, v).real)):
+                res.violation(f"Phi[{a},{b},{c}](v v^H) has eigenvalue {lam}: the map used by is_separable is not positive", {"function": "ha_probe", "args": {"abc": [a, b, c], "vecs": [v]}, "impl": lam, "model": ">= 0", "theorem": "ha_maps_branch (cited hypothesis)"})
 
 
 def work_ball(task, res: Result):
@@ -819,7 +1099,8 @@ def work_symext(task, res: Result):
             res.violation(f"has_symmetric_extension(level={level}, ppt=True) = {out} on a certified NPT state", {**info, "model": False, "certified_hi": float(cert["hi"]), "theorem": "negative_rayleigh_not_separable"})
 
 
-WORK = {"ppt": work_ppt, "pt_tie": work_pt_tie, "sep": work_sep, "ball": work_ball, "symext": work_symext}
+WORK = {"ppt": work_ppt, "pt_tie": work_pt_tie, "sep": work_sep, "ball": work_ball, "symext": work_symext, "criteria": work_criteria, "choi_tie": work_choi_tie,
+        "ha_probe": work_ha_probe}
 
 
 def work(task, res: Result):
@@ -1016,6 +1297,30 @@ def run(ctx, model_ok=True):
     for k in (2, 2, 3, 3) if quick else (2, 3) * 20:
         T("symext", inst=gen_sepmix(rng, 2, 2, k, bool(rng.integers(2))), calls=[(2, ["list", "none", "int"][int(rng.integers(3))], False)])
 
+    # ---- (v) necessary criteria of the cascade: ties of realignment / partial_trace / partial_channel to the exact model, and the criteria quantities on
+    #          separable-by-construction inputs (drawn after all other streams)
+    crit_insts = [inst for j, inst in enumerate(sep_insts) if inst.get("sep") or j % 3 == 0]
+    crit_dims = [(3, 3), (2, 4), (4, 4), (3, 4), (4, 2), (3, 3), (2, 2), (4, 3), (3, 2), (2, 3)]
+    for i in range(30 if quick else 400):
+        dA, dB = crit_dims[i % len(crit_dims)]
+        k = [1, 2, 3, 5, 8][i % 5] if i % 7 else int(rng.integers(1, 9))
+        crit_insts.append(gen_sepmix(rng, dA, dB, k, bool(rng.integers(2)), mix_id=[None, None, None, (1, 8)][int(rng.integers(4))], scale=float(rng.choice([1.0, 1.0, 4.0, 0.25]))))
+    for inst in crit_insts:
+        T("criteria", inst=inst, ha_idx=int(rng.integers(19)))
+    for i in range(24 if quick else 300):
+        dA, dB = DIMS_ALL[int(rng.integers(len(DIMS_ALL)))]
+        sys_ = 1 + i % 2
+        d_in = dA if sys_ == 1 else dB
+        dO = d_in if i % 3 == 0 else int(rng.integers(1, 5))
+        cplx = bool(i % 4)
+        Xi = rng.integers(-7, 8, (dA * dB, dA * dB)) + (1j * rng.integers(-7, 8, (dA * dB, dA * dB)) if cplx else 0)
+        Ji = rng.integers(-5, 6, (d_in * dO, d_in * dO)) + (1j * rng.integers(-5, 6, (d_in * dO, d_in * dO)) if cplx else 0)
+        T("choi_tie", dA=dA, dB=dB, dO=dO, sys=sys_, X=np.asarray(Xi), J=np.asarray(Ji))
+    om = np.exp(2j * np.pi / 3)
+    vecs = [np.array(v, dtype=complex) for v in ([1, 0, 0], [0, 1, 0], [0, 0, 1], [1, 1, 1], [1, om, om ** 2], [1, 1, 0], [1, 0, 1j], [0, 1, -1])]
+    vecs += [qgen.int_vector(rng, 3, True, 5) for _ in range(8 if quick else 200)]
+    T("ha_probe", vecs=vecs)
+
     # heavy tasks first so that the pool drains evenly
     def weight(t):
         if t["kind"] == "sep":
@@ -1031,7 +1336,8 @@ def run(ctx, model_ok=True):
     br = {k: v for k, v in ctx.hist.items() if k.startswith("is_separable-branch/")}
     ctx.extra["is_separable_deciding_statements"] = br
     ctx.extra["has_symmetric_extension_deciding_statements"] = {k: v for k, v in ctx.hist.items() if k.startswith("symext-branch/")}
-    ctx.extra["margins"] = {"lambda_min_vs_tol": MARGIN, "is_separable_npt": 1e-6, "ball_relative": MARGIN}
+    ctx.extra["margins"] = {"lambda_min_vs_tol": MARGIN, "is_separable_npt": 1e-6, "ball_relative": MARGIN, "criteria_slack": CRIT_SLACK}
+    ctx.extra["necessary_criterion_branch_theorems"] = dict(NECESSARY_THEOREMS, **{"rank4-3x3": "cited (Chen-Djokovic)", "symext-final-false": "known finding c15-is-separable-late-stage"})
     reachable = sorted({k.split("/")[1] for k in br})
     ctx.note("is_separable statements that decided at least one call: " + ", ".join(reachable))
 
@@ -1075,6 +1381,14 @@ def replay(ctx, rec):
     elif fn in ("partial_transpose", "swap"):
         inst = {"family": "replay", "dA": a["dA"], "dB": a["dB"], "rho": _arr(a["rho"]), "sep": None, "terms": None, "cplx": True}
         work_pt_tie({"inst": inst, "model_ok": True, "pres": a.get("pres")}, res)
+    elif fn in ("necessary_criteria", "realignment", "partial_trace"):
+        inst = {"family": a.get("family", "replay"), "dA": a["dA"], "dB": a["dB"], "rho": _arr(a["rho"]), "sep": rec.get("separable_by_construction"), "terms": None, "cplx": True,
+                "k": a.get("k") or 2, "meta": a.get("meta")}
+        work_criteria({"inst": inst, "ha_idx": a.get("ha_idx", 0), "model_ok": True, "pres": a.get("pres")}, res)
+    elif fn == "partial_channel":
+        work_choi_tie({"dA": a["dA"], "dB": a["dB"], "dO": a["dO"], "sys": a["sys"], "X": _arr(a["X"]), "J": _arr(a["J"]), "model_ok": True, "pres": a.get("pres")}, res)
+    elif fn == "ha_probe":
+        work_ha_probe({"vecs": [np.asarray(_arr([v]))[0] for v in a["vecs"]], "model_ok": True}, res)
     else:
         raise InfraError(f"cannot replay function {fn}")
     fold(ctx, res)
